@@ -470,6 +470,7 @@ def pmap(fn, items, nproc=None):
     nproc = nproc or NCPU
     if nproc <= 1 or len(items) <= 1:
         return [fn(x) for x in items]
+    scratch_root()      # created here so that the forked workers share it (they leave through os._exit, without atexit)
     ctx = mp.get_context("fork")
     with ctx.Pool(min(nproc, len(items))) as pool:
         return pool.map(fn, items, chunksize=1)
